@@ -18,9 +18,10 @@ DEFS = ["-DHAS_UNISTD=1", "-DHAS_SYSUIO=1", "-DHAS_SYSTIME=1", "-DHAS_SYSRESOURC
         "-DHAS_FCNTL=1", "-DHAS_LSTAT=1", "-DHAS_GETENTROPY=1", "-DHAS_TIMESPEC=1", "-DWASM_THREADS_PTHREADS"]
 
 
-def build(repo_copy, workdir, sanitize=True, cc="gcc"):
-    exe = os.path.join(workdir, "wasi_paths" + ("_san" if sanitize else ""))
-    cmd = [cc, "-O1", "-g", "-fno-strict-aliasing", "-fno-omit-frame-pointer", "-w"] + DEFS
+def build(repo_copy, workdir, sanitize=True, cc="gcc", extra_defs=(), suffix=""):
+    """extra_defs: e.g. ["-DWASI_FALLBACK_TIMERS_ENABLED=1"] builds the library's fallback-timer configuration"""
+    exe = os.path.join(workdir, "wasi_paths" + ("_san" if sanitize else "") + suffix)
+    cmd = [cc, "-O1", "-g", "-fno-strict-aliasing", "-fno-omit-frame-pointer", "-w"] + DEFS + list(extra_defs)
     if sanitize:
         cmd += ["-fsanitize=address,undefined", "-fno-sanitize-recover=all"]
     cmd += ["-I", os.path.join(repo_copy, "wasi"), "-I", os.path.join(repo_copy, "w2c2"),
